@@ -322,6 +322,18 @@ class Func:
 	def local_name(self, l):
 		return self.vars.get(l)
 
+	@property
+	def mut_borrowed(self):
+		if not hasattr(self, '_mutb'):
+			mb = set()
+			for b in self.blocks:
+				for s in b['s']:
+					rv = s[2]
+					if rv[0] in ('ref', 'rawptr') and rv[1] and not any(e == '*' for e in rv[2][1:]):
+						mb.add(rv[2][0])
+			self._mutb = mb
+		return self._mutb
+
 	def term(self, b):
 		return self.blocks[b]['t']
 
@@ -624,8 +636,8 @@ class Expr:
 		if len(whole) == 1 and len(ds) == 1 and name is None:
 			d = whole[0]
 			return self.of_rvalue(d[3], depth + 1)
-		if len(whole) == 1 and len(ds) == 1 and name is not None:
-			# a user variable assigned exactly once (let x = ...): transparent too
+		if len(whole) == 1 and len(ds) == 1 and name is not None and l not in fu.mut_borrowed:
+			# a user variable assigned exactly once (let x = ...) and never mutably borrowed: transparent too
 			d = whole[0]
 			return self.of_rvalue(d[3], depth + 1)
 		return ('local', l, name)
@@ -1380,6 +1392,12 @@ def place_decisions(fu, place_pred, kind):
 						out.append(Decision(bj, te, fe, kind))
 	return out
 
+def variant_switch_on(fu, key_re, adt_variants):
+	"""like variant_switch_edges, selecting the matched place by the canonical key of its expression
+	(follows references: `match &x.state` reads the discriminant through a temporary)"""
+	ex = Expr(fu)
+	return variant_switch_edges(fu, lambda pl: _re.search(key_re, leaf_key(ex.of_place(pl))) is not None, adt_variants)
+
 def variant_switch_edges(fu, place_pred, adt_variants):
 	"""for `match place {..}` on an enum: returns list of (switch block, {variant_name: target}, otherwise).
 	adt_variants: ordered list of variant names of the enum (from facts.adts)."""
@@ -1533,7 +1551,7 @@ def match_guards(guards, pos_re, neg_re=None, extra=0):
 		out.append((g, o))
 	return out
 
-def P7_guard(facts, rule, fn, label, pos_re, neg_re, want_op, want_K, count=1, with_closures=True, extra=0, true_reaches=None, true_avoids=None):
+def P7_guard(facts, rule, fn, label, pos_re, neg_re, want_op, want_K, count=1, with_closures=True, extra=0, true_reaches=None, true_avoids=None, exclusive=True):
 	"""the function contains exactly `count` comparison(s) of the shape  pos - neg  <op>  K.
 	true_reaches: optional predicate(fu, block) -> bool; the comparison's true edge must reach
 	such a block and its false edge must not (ties the guard to the outcome it protects)."""
@@ -1567,7 +1585,7 @@ def P7_guard(facts, rule, fn, label, pos_re, neg_re, want_op, want_K, count=1, w
 				if not any(true_reaches(g.fu, b) for b in rt):
 					ok = False
 					msg += '; true edge does not reach the expected outcome'
-				if any(true_reaches(g.fu, b) for b in rf):
+				if exclusive and any(true_reaches(g.fu, b) for b in rf):
 					ok = False
 					msg += '; expected outcome also reachable when the comparison is false'
 		out.append(Result(rule, ok, ('ok:' if ok else 'shape:') + key, msg, 1, where=facts.where(g.fu.name, g.line), detail={'normal_form': cmp_str(o), 'consts': sorted(used)}))
